@@ -96,6 +96,7 @@ def check_pop(exe, env, model_exe, workdir, tag, s, pop, text, off, orders):
                 continue
             x = byid[i]
             truth = G.inverse_truth(s, pop, x)
+            truth_nc = G.inverse_truth(s, pop, x, skip_complex=True)
             for (n, owner), want in truth.items():
                 inv = next(v for v in G.ent(s, owner)["inverses"] if v[0] == n)
                 g = got.get((i, n, owner))
@@ -104,7 +105,11 @@ def check_pop(exe, env, model_exe, workdir, tag, s, pop, text, off, orders):
                     continue
                 flags, ids = g
                 if inv[1]:
-                    if sorted(ids) != want or len(set(ids)) != len(ids):
+                    if want != truth_nc[(n, owner)] and ids == truth_nc[(n, owner)]:
+                        # exactly the complex referrers are missing: the known class
+                        problems.append(("class:complex-referrer", f"after loadInstance history {o}: #{i}.{n} (SET OF {inv[2]} FOR {inv[3]}) holds {ids}, "
+                                         f"the real referrers are {want} (the missing ones are complex instances)", o))
+                    elif sorted(ids) != want or len(set(ids)) != len(ids):
                         problems.append(("property", f"after loadInstance history {o}: #{i}.{n} (SET OF {inv[2]} FOR {inv[3]}) holds {ids}, "
                                          f"the real referrers are {want}", o))
                 else:
@@ -166,9 +171,10 @@ def run(ctx):
             calls, cached, invl, ended = C10.parse_load(out)
             ctx.count(1, key="corpus:" + f)
             if rc != 0 or not ended or sorted(invl) != sorted(r["expect"]):
-                ctx.violation("corpus:" + f[:-5], f"history {o}: inverse attributes {invl} (rc={rc}), the real referrers are {r['expect']}", r)
+                ctx.violation(r.get("key", "corpus:" + f[:-5]), f"history {o}: inverse attributes {invl} (rc={rc}), the real referrers are {r['expect']}", r)
     nschemas, npops, nmax = (4, 30, 14) if quick else (40, 100, 14)
-    schemas = [G.schema_c11(ctx.rng, i, ninv=(i % 3) + 1) for i in range(nschemas)]
+    # every 8th schema (the last one in quick) lets referrers be complex instances: the known `complex-referrer` class
+    schemas = [G.schema_c11(ctx.rng, i, ninv=(i % 3) + 1, complex_ref=(i % 8 == 3)) for i in range(nschemas)]
     t0 = time.time()
     with cf.ThreadPoolExecutor(max_workers=8) as ex:
         exes = list(ex.map(lambda s: C10.build_schema(b, s, ctx.work), schemas))
@@ -196,7 +202,7 @@ def run(ctx):
     t0 = time.time()
     with cf.ThreadPoolExecutor(max_workers=14) as ex:
         results = list(ex.map(work, jobs))
-    nprob = sum(1 for _, pr in results if [p for p in pr if p[0] != 'skipped'])
+    nprob = sum(1 for _, pr in results if [p for p in pr if p[0] != 'skipped' and not p[0].startswith('class:')])
     ctx.cov["correspondence"]["populations"] = {"n": len(jobs), "with_problems": nprob, "wall_s": round(time.time() - t0, 1)}
     for (si, tag, s, pop, text, off, orders), pr in results:
         ctx.count(len(orders), key=hashlib.sha1(text.encode("latin-1")).hexdigest())
@@ -204,6 +210,12 @@ def run(ctx):
         for x in pop:
             for (_, want) in G.inverse_truth(s, pop, x).items():
                 ctx.hist("referrers per inverse attribute", min(len(want), 4))
+    for (si, tag, s, pop, text, off, orders), pr in results:
+        for p in pr:
+            if p[0].startswith("class:"):
+                ctx.hist("known classes hit by the random stream", p[0][6:])
+                ctx.violation(p[0][6:], p[1], {"schema": G.express(s), "file": text, "load_orders": [p[2]], "class": p[0][6:]})
+                break
     for (si, tag, s, pop, text, off, orders), pr in results:
         props = [p for p in pr if p[0] == "property"]
         if props and len(ctx.violations) < 3:
@@ -233,7 +245,7 @@ def run(ctx):
     ctx.cov["correspondence"]["skipped (judy.c alignment abort under UBSan)"] = sum(1 for _, pr in results for p in pr if p[0] == "skipped")
     if not ctx.violations:
         for (si, tag, s, pop, text, off, orders), pr in results:
-            for kind, det, o in [p for p in pr if p[0] != "skipped"]:
+            for kind, det, o in [p for p in pr if p[0] != "skipped" and not p[0].startswith("class:")]:
                 ctx.broken.append((f"{kind} ({tag})", det + " (the oracle finds the property intact on this input)"))
                 break
             if ctx.broken:
